@@ -50,6 +50,7 @@ pub uninterp spec fn number_of_i64(i: i64) -> KNumber;
 // i64::try_from(usize) (std): assumed contract
 #[verifier::external_body] fn i64_try_from_usize(x: usize) -> (r: core::result::Result<i64, ()>)
     ensures (r is Ok) == (x <= i64::MAX), r matches Ok(v) ==> v as int == x as int { unimplemented!() }
+#[verifier::external_body] fn err_wrong_size<T>(size: usize, expected: usize) -> (r: Result<T>) ensures r is Err { unimplemented!() }
 #[verifier::external_body] fn err_negative_index<T>(n: KNumber) -> (r: Result<T>) ensures r is Err { unimplemented!() }
 #[verifier::external_body] fn err_out_of_bounds<T>(n: KNumber, size: usize) -> (r: Result<T>) ensures r is Err { unimplemented!() }
 #[verifier::external_body] fn err_invalid_utf8<T>() -> (r: Result<T>) ensures r is Err { unimplemented!() }
@@ -60,6 +61,12 @@ pub uninterp spec fn number_of_i64(i: i64) -> KNumber;
 impl ListDataRef {
     pub uninterp spec fn view(&self) -> Seq<KValue>;
     #[verifier::external_body] fn len(&self) -> (r: usize) ensures r == self@.len() { unimplemented!() }
+    // `data.get(..i).map_or(Null, |e| List(KList::from_slice(e)))` / `data.get(i..)..` (slice::get is None
+    // past the end), rule R5
+    #[verifier::external_body] fn slice_to_or_null(&self, i: usize) -> (r: KValue)
+        ensures i <= self@.len() ==> (r matches KValue::List(l) && l.elems() == self@.subrange(0, i as int)), i > self@.len() ==> r is Null { unimplemented!() }
+    #[verifier::external_body] fn slice_from_or_null(&self, i: usize) -> (r: KValue)
+        ensures i <= self@.len() ==> (r matches KValue::List(l) && l.elems() == self@.subrange(i as int, self@.len() as int)), i > self@.len() ==> r is Null { unimplemented!() }
     // `data.get(i).cloned().unwrap_or(Null)`, rule R5
     #[verifier::external_body] fn get_cloned_or_null(&self, i: usize) -> (r: KValue) ensures r == (if i < self@.len() { self@[i as int] } else { KValue::Null }) { unimplemented!() }
     // `data[i].clone()` (Index on the Vec: panics out of bounds), rule R5
@@ -111,6 +118,11 @@ impl KRange {
 // maps
 impl MapDataRef {
     pub uninterp spec fn view(&self) -> Seq<(ValueKey, KValue)>;
+    // `data.make_data_slice(..i).map_or(Null, |s| KMap::with_data(s).into())` / `(i..)`, rule R5
+    #[verifier::external_body] fn slice_to_map_or_null(&self, i: usize) -> (r: KValue)
+        ensures i <= self@.len() ==> (r matches KValue::Map(m) && m.entries() == self@.subrange(0, i as int)), i > self@.len() ==> r is Null { unimplemented!() }
+    #[verifier::external_body] fn slice_from_map_or_null(&self, i: usize) -> (r: KValue)
+        ensures i <= self@.len() ==> (r matches KValue::Map(m) && m.entries() == self@.subrange(i as int, self@.len() as int)), i > self@.len() ==> r is Null { unimplemented!() }
     #[verifier::external_body] fn len(&self) -> (r: usize) ensures r == self@.len() { unimplemented!() }
     #[verifier::external_body]
     fn get_index(&self, i: usize) -> (r: Option<(&ValueKey, &KValue)>)
@@ -151,6 +163,10 @@ AFTER_ENUM = r"""
 impl Clone for KValue { #[verifier::external_body] fn clone(&self) -> (r: Self) ensures r == *self { unimplemented!() } }
 #[verifier::external_body] fn unexpected_type<T>(expected: &str, unexpected: &KValue) -> (r: Result<T>) ensures r is Err { unimplemented!() }
 // Option<KString> -> KValue (`.into()`: Some(s) is Str(s), None is Null), i8 / usize -> KValue; rule R5
+fn option_tuple_into_value(o: Option<KTuple>) -> (r: KValue) ensures r == (match o { Some(t) => KValue::Tuple(t), None => KValue::Null }) { match o { Some(t) => KValue::Tuple(t), None => KValue::Null } }
+pub uninterp spec fn value_of_range(a: i64, b: i64) -> KValue;
+// `KRange::from(a..b).into()`, rule R5
+#[verifier::external_body] fn range_value(r: core::ops::Range<i64>) -> (v: KValue) ensures v == value_of_range(r.start, r.end) { unimplemented!() }
 fn option_str_into_value(o: Option<KString>) -> (r: KValue) ensures r == (match o { Some(s) => KValue::Str(s), None => KValue::Null }) { match o { Some(s) => KValue::Str(s), None => KValue::Null } }
 pub uninterp spec fn value_of_i8(i: i8) -> KValue;
 #[verifier::external_body] fn i8_into_value(i: i8) -> (r: KValue) ensures r == value_of_i8(i) { unimplemented!() }
@@ -163,6 +179,16 @@ VM_SPECS = r"""
     pub uninterp spec fn reg(&self, r: u8) -> KValue;
     #[verifier::external_body] fn clone_register(&self, r: u8) -> (v: KValue) ensures v == self.reg(r) { unimplemented!() }
     #[verifier::external_body] fn get_register(&self, r: u8) -> (v: &KValue) ensures *v == self.reg(r) { unimplemented!() }
+    // get_value_size (run_unary_op(Size) then a Number): the size the value reports, or an error
+    pub uninterp spec fn size_of(&self, r: u8) -> Option<usize>;
+    #[verifier::external_body]
+    fn get_value_size(&mut self, value_register: u8) -> (r: Result<usize>)
+        ensures *final(self) == *old(self), r matches Ok(n) ==> old(self).size_of(value_register) == Some(n), r is Err ==> old(self).size_of(value_register) is None { unimplemented!() }
+    // run_read_op (V-vmproto): asks the value's @index function; here only what it is asked
+    pub uninterp spec fn read_answer(value: KValue, arg: KValue) -> Result<KValue>;
+    #[verifier::external_body]
+    fn run_read_op(&mut self, op: ReadOp, value: KValue, arg: KValue) -> (r: Result<KValue>)
+        ensures r == Self::read_answer(value, arg) { unimplemented!() }
     // the whole register file (temporary tuples address it directly)
     pub uninterp spec fn raw(&self) -> Seq<KValue>;
     // `self.registers[i].clone()` (Index on the Vec: panics out of bounds), rule R5
@@ -229,6 +255,28 @@ TEMP_SPEC = """
         %(v)s matches KValue::Range(rg) ==> (index >= 0 ==> (rg.sstart() matches Some(st) ==> r is Ok && (st + index <= i64::MAX && rg.scontains((st + index) as i64) ==> %(res)s == KValue::Number(number_of_i64((st + index) as i64))))),   // @range_element_from_start
 """ % dict(v=TV, res=TRES)
 
+SV = "old(self).reg(value)"
+SRES = "final(self).reg(register)"
+SLICE_SPEC = """
+    ensures
+        // C03 `rest...`: the elements before (slice_to) / from (slice_from) position `index`, a negative
+        // index counting from the end; null when the position is past the end
+        %(v)s matches KValue::List(l) ==> r is Ok && (pos(index, l.elems().len() as usize) <= l.elems().len() ==> (%(res)s matches KValue::List(s) && s.elems() ==
+            (if is_slice_to { l.elems().subrange(0, pos(index, l.elems().len() as usize) as int) } else { l.elems().subrange(pos(index, l.elems().len() as usize) as int, l.elems().len() as int) }))),   // @list_rest
+        %(v)s matches KValue::List(l) ==> (pos(index, l.elems().len() as usize) > l.elems().len() ==> %(res)s is Null),                                    // @list_rest_past_the_end_is_null
+        %(v)s matches KValue::Tuple(t) ==> r is Ok && (pos(index, t.elems().len() as usize) <= t.elems().len() ==> (%(res)s matches KValue::Tuple(s) && s.elems() ==
+            (if is_slice_to { t.elems().subrange(0, pos(index, t.elems().len() as usize) as int) } else { t.elems().subrange(pos(index, t.elems().len() as usize) as int, t.elems().len() as int) }))),   // @tuple_rest
+        %(v)s matches KValue::Tuple(t) ==> (pos(index, t.elems().len() as usize) > t.elems().len() ==> %(res)s is Null),                                   // @tuple_rest_past_the_end_is_null
+        // a plain map: the entries before / from that position
+        %(v)s matches KValue::Map(m) ==> (!m.meta().contains_key(MetaKey::ReadOp(ReadOp::Index)) ==> r is Ok && (pos(index, m.entries().len() as usize) <= m.entries().len() ==> (%(res)s matches KValue::Map(s) && s.entries() ==
+            (if is_slice_to { m.entries().subrange(0, pos(index, m.entries().len() as usize) as int) } else { m.entries().subrange(pos(index, m.entries().len() as usize) as int, m.entries().len() as int) })))),   // @map_rest
+        // C17: a map with @index is asked for the range 0..position / position..size, with its reported size
+        %(v)s matches KValue::Map(m) ==> (m.meta().contains_key(MetaKey::ReadOp(ReadOp::Index)) ==> (old(self).size_of(value) matches Some(n) ==> (r is Ok ==>
+            Self::read_answer(%(v)s, (if is_slice_to { value_of_range(0, pos(index, n) as i64) } else { value_of_range(pos(index, n) as i64, n as i64) })) == Ok::<KValue, Error>(%(res)s)))),   // @metakey_function_asked_for_the_rest_range
+        // strings: the text before / from that byte position, null when that cuts a character
+        %(v)s matches KValue::Str(s) ==> r is Ok,                                                                                                          // @string_rest_never_errs
+""" % dict(v=SV, res=SRES)
+
 UNIT = Unit(
     name="V-runindex",
     prelude=PRELUDE,
@@ -279,6 +327,34 @@ UNIT = Unit(
                ("o.index(&index.into())", "o.index(&usize_into_value(index))", None),
            ],
            spec=TEMP_SPEC),
+        Fn(F, "impl KotoVm :: fn run_slice", props=("C03", "C06", "C17"),
+           subst=[
+               ("let index_op = ReadOp::Index.into();", "let index_op = read_key(ReadOp::Index);", None),
+               (r"list\.data\(\)\s*\.get\(\.\.([^.()]+?)\)\s*\.map_or\(Null, \|entries\| List\(KList::from_slice\(entries\)\)\)", r"list.data().slice_to_or_null(\1)", None, "re"),
+               (r"list\.data\(\)\s*\.get\(([^.()]+?)\.\.\)\s*\.map_or\(Null, \|entries\| List\(KList::from_slice\(entries\)\)\)", r"list.data().slice_from_or_null(\1)", None, "re"),
+               (r"tuple\.make_sub_tuple\((.*?)\)\.into\(\)", r"option_tuple_into_value(tuple.make_sub_tuple(\1))", None, "re"),
+               (r"s\.with_bounds\((.*?)\)\.into\(\)", r"option_str_into_value(s.with_bounds(\1))", None, "re"),
+               (r"data\.make_data_slice\(\.\.index\)\s*\.map_or\(Null, \|slice\| KMap::with_data\(slice\)\.into\(\)\)", "data.slice_to_map_or_null(index)", None, "re"),
+               (r"data\.make_data_slice\(index\.\.\)\s*\.map_or\(Null, \|slice\| KMap::with_data\(slice\)\.into\(\)\)", "data.slice_from_map_or_null(index)", None, "re"),
+               ("KRange::from(range).into()", "range_value(range)", None),
+           ],
+           spec=SLICE_SPEC),
+        Fn(F, "impl KotoVm :: fn run_check_size_equal", props=("C03", "C06"),
+           subst=[(r"runtime_error!\(\s*\"the container has a size of '\{size\}', expected '\{expected_size\}'\"\s*\)", "err_wrong_size(size, expected_size)", None, "re")],
+           spec=r"""
+    ensures
+        // C03: a nested pattern without `...` matches by size: exactly that many elements
+        (r is Ok) == (old(self).size_of(value_register) == Some(expected_size)),                            // @matches_exactly_that_size
+        *final(self) == *old(self),
+"""),
+        Fn(F, "impl KotoVm :: fn run_check_size_min", props=("C03", "C06"),
+           subst=[(r"runtime_error!\(\s*\"The container has a size of '\{size\}', expected a minimum of  '\{expected_size\}'\"\s*\)", "err_wrong_size(size, expected_size)", None, "re")],
+           spec=r"""
+    ensures
+        // C03: a nested pattern with `...` matches by size: at least the named elements
+        (r is Ok) == (old(self).size_of(value_register) matches Some(n) && n >= expected_size),            // @matches_at_least_that_size
+        *final(self) == *old(self),
+"""),
     ],
     epilogue=r"""
 // ---- vacuity guard: MUST FAIL
